@@ -126,6 +126,12 @@ def gen_case(kind, profile, seed, tier='quick'):
         sc = S.gen(seed, profile)
         rng = random.Random('pause/%s' % seed)
         return {'kind': 'pause', 'sc': sc, 'split_seed': rng.randint(0, 10 ** 6), 'ks': None}
+    if kind == 'pause_sample':
+        # a few pause points per scenario instead of all of them (cheap; used by C12/C13)
+        sc = S.gen(seed, profile)
+        rng = random.Random('pause/%s' % seed)
+        return {'kind': 'pause', 'sc': sc, 'split_seed': rng.randint(0, 10 ** 6), 'ks': None,
+                'ks_frac': sorted(rng.random() for _ in range(2)), 'splits': None, 'nsplits': 1}
     if kind == 'units':
         sc = S.gen(seed, profile)
         rng = random.Random('units/%s' % seed)
@@ -249,9 +255,11 @@ def exec_pause(case, d):
     ref_snaps = ref.env.hooks.snaps
     ref_df, ref_tasks, ref_ev = ref.sim.monitor.df, ref.tasks, ref.sim.monitor.events
     ks = case.get('ks')
+    if ks is None and case.get('ks_frac'):
+        ks = sorted({min(T, max(1, int(round(f * T)))) for f in case['ks_frac']})
     exhaustive = ks is None
     if ks is None:
-        ks = list(range(1, T))
+        ks = list(range(1, T + 1))       # k = T: the first start() already completes the run
         if len(ks) > 45:
             rng = random.Random('ks/%s' % case.get('split_seed'))
             ks = sorted(rng.sample(ks, 45))
@@ -261,7 +269,7 @@ def exec_pause(case, d):
     if case.get('splits') is not None:
         plans += case['splits']
     elif T >= 4:
-        for _ in range(3):
+        for _ in range(case.get('nsplits', 3)):
             n = rng.randint(2, min(5, T - 1))
             plans.append(sorted(rng.sample(range(1, T), n)))
     out['probes']['pause_points'] = 0
@@ -319,10 +327,10 @@ def _pause_refusals(sc, d, add, out):
     import contextlib
     import io
     from .env import VerifEnv
-    for mode in ('resume_first', 'start_twice'):
-        env = VerifEnv(budget=10 ** 6)
+    for mode in ('resume_first', 'start_twice', 'start_after_completion', 'start_after_paused_completion'):
+        env = VerifEnv(budget=S.serial_bound(sc) + 5)
         with contextlib.redirect_stdout(io.StringIO()):
-            sim, fs = sut.build(sc, d, env, 'real')
+            sim, fs = sut.build(sc, d, env, 'light')
 
             def state():
                 return (env.now, len(env._queue), sim.running, len(sim.monitor.df), len(sim.monitor.events),
@@ -339,11 +347,21 @@ def _pause_refusals(sc, d, add, out):
                     if state() != s0:
                         add('refused_call_changed_state', 'resume before start: %s -> %s' % (s0, state()), site=mode)
                 else:
-                    sim.start(runtime=2)
+                    if mode == 'start_twice':
+                        sim.start(runtime=2)
+                    elif mode == 'start_after_completion':
+                        sim.start()
+                    else:
+                        # a pause point at or beyond the natural end: start(k) returns with the run complete
+                        sim.start(runtime=S.serial_bound(sc) + 2)
+                        try:
+                            sim.resume(env.now + 1)     # a started simulation can always be resumed
+                        except RuntimeError as e:
+                            add('resume_after_start_refused', 'start(k>=T) then resume(): %s' % e, site=mode)
                     s0 = state()
                     try:
-                        sim.start(runtime=4)
-                        add('second_start_not_refused', 'start() twice did not raise')
+                        sim.start(runtime=int(env.now) + 3)
+                        add('second_start_not_refused', 'start() twice did not raise (%s)' % mode, site=mode)
                     except RuntimeError:
                         pass
                     if state() != s0:
@@ -582,14 +600,15 @@ def _sc_candidates(sc):
         wf = sc['wfs'][w]
         n = len(wf['nodes'])
         if n > 1:
-            c = copy.deepcopy(sc)
-            last = str(n - 1)
-            del c['wfs'][w]['nodes'][last]
-            c['wfs'][w]['edges'] = [e for e in c['wfs'][w]['edges'] if str(e[0]) != last and str(e[1]) != last]
-            for o in c['obs']:
-                if o['wf'] == w:
-                    c['faults']['delays'].pop('%s:%s' % (o['name'], last), None)
-            yield c
+            for idx in range(n - 1, -1, -1):
+                c = copy.deepcopy(sc)
+                last = c['wfs'][w]['nodes'][idx][0]
+                del c['wfs'][w]['nodes'][idx]
+                c['wfs'][w]['edges'] = [e for e in c['wfs'][w]['edges'] if e[0] != last and e[1] != last]
+                for o in c['obs']:
+                    if o['wf'] == w:
+                        c['faults']['delays'].pop('%s:%s' % (o['name'], last), None)
+                yield c
         for j in range(len(wf['edges'])):
             c = copy.deepcopy(sc)
             del c['wfs'][w]['edges'][j]
@@ -638,11 +657,15 @@ def _sc_candidates(sc):
                 yield c
     for w in used:
         wf = sc['wfs'][w]
-        for n, (comp, data) in wf['nodes'].items():
+        for idx, (n, comp, data) in enumerate(wf['nodes']):
             if data:
                 c = copy.deepcopy(sc)
-                c['wfs'][w]['nodes'][n][1] = None
+                c['wfs'][w]['nodes'][idx][2] = None
                 yield c
+        if [x[0] for x in wf['nodes']] != sorted(x[0] for x in wf['nodes']):
+            c = copy.deepcopy(sc)
+            c['wfs'][w]['nodes'].sort(key=lambda x: x[0])
+            yield c
     if sc['pairing'] == 'batch' and (sc['alg_params'].get('resource_split')):
         c = copy.deepcopy(sc)
         c['alg_params']['resource_split'] = None
